@@ -65,7 +65,10 @@ func (p pset) sibling() pset { return sets[(p.idx+6)%12] }
 
 // drawSet draws a parameter set; the six 's' sets together get smallPct percent.
 func drawSet(rt *rapid.T, smallPct int) pset {
-	small := pick(rt, "setclass", 100) < smallPct
+	// the slow 's' sets sit at the HIGH end of the draw: rapid shrinks draws towards 0, and a failing
+	// case must shrink towards the cheap sets (one block of the shrinker is about 64 evaluations that
+	// the shrink deadline does not interrupt)
+	small := pick(rt, "setclass", 100) >= 100-smallPct
 	k := pick(rt, "set", 6)
 	for _, p := range sets {
 		if p.small == small {
